@@ -828,6 +828,33 @@ impl ZmtpEngine {
   }
 }
 
+/// Read-only projection of private engine state for the verification harness.
+#[cfg(rzmq_verif)]
+impl ZmtpEngine {
+  /// (negotiated version: 0 none / 2 / 3, revision_sent, waiting_for_pong, frames in partial_batch)
+  pub fn verif_state(&self) -> (u8, bool, bool, usize) {
+    let v = match self.version {
+      None => 0,
+      Some(ZmtpVersion::V2) => 2,
+      Some(ZmtpVersion::V3) => 3,
+    };
+    (v, self.revision_sent, self.waiting_for_pong, self.partial_batch.len())
+  }
+  /// Shift the engine's notion of "last activity" and "last ping" back by `d`
+  /// (the two places the engine reads the wall clock itself are bridged this way).
+  pub fn verif_age(&mut self, d: Duration) {
+    if let Some(t) = self.last_activity_time.checked_sub(d) {
+      self.last_activity_time = t;
+    }
+    if let Some(p) = self.last_ping_sent_time {
+      self.last_ping_sent_time = p.checked_sub(d);
+    }
+  }
+  pub fn verif_last_activity(&self) -> Instant {
+    self.last_activity_time
+  }
+}
+
 // --- Module-level helpers ---
 
 fn local_mechanism_name_bytes(config: &ZmtpEngineConfig) -> &'static [u8; MECHANISM_LENGTH] {
